@@ -103,15 +103,28 @@ def size_val(r):
 
 
 @spec
-def in_range_chain(r, i: int) -> bool:
-    """the index is below the size at every level of the alias chain (what resolve_qubit checks)"""
-    if i >= size_of(r):
-        return False
+def size_bad(r) -> bool:
+    """asking for the size fails: the slice that determines it has step zero"""
     if r._alias_from is None:
-        return True
+        return False
     if r._alias_slice is None:
-        return in_range_chain(r._alias_from, i)
-    return in_range_chain(r._alias_from, sl_start(r._alias_slice) + i * sl_step(r._alias_slice))
+        return size_bad(r._alias_from)
+    return sl_step(r._alias_slice) == 0
+
+
+@spec
+def chain_bad(r, i: int) -> bool:
+    """resolution of element i fails at some level of the alias chain: the index is not below the
+    size there (C14: never a different qubit), or the size itself is undefined"""
+    if size_bad(r):
+        return True
+    if i >= size_of(r):
+        return True
+    if r._alias_from is None:
+        return False
+    if r._alias_slice is None:
+        return chain_bad(r._alias_from, i)
+    return chain_bad(r._alias_from, sl_start(r._alias_slice) + i * sl_step(r._alias_slice))
 
 
 # ---- contracts ---------------------------------------------------------------------------
@@ -157,10 +170,10 @@ class ResolveSize:
     def decreases(self, context):
         return depth(self)
 
-    def raises_ValueError(self, context):
-        return False
+    def raises_JaqalError(self, context):
+        return size_bad(self)
 
-    raises_only = ("ValueError",)
+    raises_only = ("JaqalError",)
 
 
 @contract("core.register:Register.resolve_qubit", props=["C06", "C14"])
@@ -175,7 +188,10 @@ class ResolveQubit:
         return is_int(result[1]) and result[1] == phys(self, idx)
 
     def raises_JaqalError(self, idx, context):
-        return not in_range_chain(self, idx)
+        return chain_bad(self, idx)
+
+    def inv_1(self, idx, context, size, _k):
+        return is_intconst(size) and ival(size) == size_of(self)
 
     raises_only = ("JaqalError",)
 
